@@ -1,63 +1,108 @@
-(** C16 (zsh): [write_positionals_of] with multi-valued positionals, exactly.  The loop threads [catch_all_emitted]: the first
-    multi-valued positional of a command WITHOUT subcommands is written as the catch-all ['*:name:...'], every later
-    multi-valued positional is skipped (the comment in zsh.rs: a second catch-all would make [_arguments] fail); with
-    subcommands no catch-all is written and every positional keeps its line.  Round 2 proved only that single-valued
-    positionals have a line ([block_positional_line]).  ([Arg::is_last_set] and [value_terminator] are the constants
-    [arg_is_last] = false / [arg_terminator] = None of the model: no spec format carries them.) *)
-From ClapModel Require Import Base.Bytes Complete.AotTree Complete.BashModel Complete.FishModel Complete.ZshModel.
-From Coq Require Import String.
+(** C16 (zsh): [write_positionals_of] with multi-valued positionals, [last] and value terminators, exactly.  The loop threads
+    [catch_all_emitted]: the first multi-valued positional WITHOUT a value terminator of a command WITHOUT subcommands is
+    written as the catch-all ['*:name:...'] and sets the flag; a multi-valued positional WITH a terminator [t] is written as
+    ['*t:name:...'] ([t] through [escape_value]) and does not set it; once the flag is set every later multi-valued positional
+    AND every [last] positional is skipped (the comment in zsh.rs: a second catch-all would make [_arguments] fail; the
+    positional after [--] is handled by the [-S] option); with subcommands no catch-all is written and every positional keeps
+    its line.  Round 4: [Arg::is_last_set] and [value_terminator] are fields of [AotTree.arg] ([a_last], [a_terminator]). *)
+From ClapModel Require Import Base.Bytes Complete.AotTree Complete.BashModel Complete.FishModel Complete.ZshModel Escape.EscapeModel.
+From Coq Require Import String Lia.
 Open Scope N_scope.
 Open Scope list_scope.
 
 Definition multi (p : arg * adesc) : bool := 1 <? a_max_values (fst p).
+Definition is_last (p : arg * adesc) : bool := a_last (fst p).
+(** what is skipped once a catch-all was written *)
+Definition skipped (p : arg * adesc) : bool := is_last p || multi p.
+(** the positional that becomes THE catch-all (sets [catch_all_emitted]) *)
+Definition catch_all (hs : bool) (p : arg * adesc) : bool :=
+  multi p && negb hs && negb (is_some (a_terminator (fst p))).
 (** the cardinality prefix of the line *)
 Definition pos_card (hs : bool) (p : arg * adesc) : bytes :=
-  if multi p && negb hs then lit "*:" else if negb (a_required (fst p)) then lit ":" else [].
+  if multi p && negb hs then
+    match a_terminator (fst p) with
+    | Some t => lit "*" ++ zsh_escape_value t ++ lit ":"
+    | None => lit "*:"
+    end
+  else if negb (a_required (fst p)) then lit ":" else [].
 (** the positionals that get a line *)
 Fixpoint pos_kept (hs ce : bool) (l : list (arg * adesc)) : list (arg * adesc) :=
   match l with
   | [] => []
-  | p :: t => if ce && multi p then pos_kept hs ce t else p :: pos_kept hs (ce || (multi p && negb hs)) t
+  | p :: t => if ce && skipped p then pos_kept hs ce t else p :: pos_kept hs (ce || catch_all hs p) t
   end.
 
 Theorem positional_lines_exact hs : forall l ce,
   positional_lines hs ce l = map (fun p => positional_line (pos_card hs p) p) (pos_kept hs ce l).
 Proof.
   induction l as [|p t IH]; intros ce; [reflexivity|].
-  cbn [positional_lines pos_kept]. unfold arg_is_last, arg_terminator. cbn [orb]. fold (multi p).
-  destruct (ce && multi p) eqn:E1; [apply IH|]. cbn [map]. unfold pos_card at 1.
+  cbn [positional_lines pos_kept]. unfold arg_is_last, arg_terminator, skipped, is_last, catch_all. fold (multi p).
+  destruct (ce && (a_last (fst p) || multi p)) eqn:E1; [apply IH|]. cbn [map]. unfold pos_card at 1.
   destruct (multi p && negb hs) eqn:E2.
-  - rewrite orb_true_r. f_equal. apply IH.
-  - rewrite orb_false_r. destruct (negb (a_required (fst p))); f_equal; apply IH.
+  - destruct (a_terminator (fst p)) as [tm|]; cbn [is_some negb andb].
+    + rewrite orb_false_r. f_equal. apply IH.
+    + rewrite orb_true_r. f_equal. apply IH.
+  - cbn [andb]. rewrite orb_false_r. destruct (negb (a_required (fst p))); f_equal; apply IH.
+Qed.
+
+Lemma catch_all_with_subcommands p : catch_all true p = false.
+Proof. unfold catch_all. cbn [negb]. rewrite andb_false_r. reflexivity. Qed.
+Lemma catch_all_skipped hs p : catch_all hs p = true -> skipped p = true.
+Proof.
+  unfold catch_all, skipped. intros H. apply andb_true_iff in H. destruct H as [H _]. apply andb_true_iff in H.
+  destruct H as [H _]. rewrite H. apply orb_true_r.
 Qed.
 
 (** with subcommands nothing is skipped *)
 Theorem pos_kept_with_subcommands : forall l, pos_kept true false l = l.
 Proof.
-  induction l as [|p t IH]; [reflexivity|]. cbn [pos_kept andb negb]. rewrite andb_false_r. cbn [orb]. rewrite IH. reflexivity.
+  induction l as [|p t IH]; [reflexivity|]. cbn [pos_kept andb orb]. rewrite catch_all_with_subcommands, IH. reflexivity.
 Qed.
 
-(** after a catch-all only the single-valued positionals remain *)
-Theorem pos_kept_after_catch_all hs : forall l, pos_kept hs true l = filter (fun q => negb (multi q)) l.
+(** after a catch-all only the single-valued positionals that are not [last] remain *)
+Theorem pos_kept_after_catch_all hs : forall l, pos_kept hs true l = filter (fun q => negb (skipped q)) l.
 Proof.
-  induction l as [|p t IH]; [reflexivity|]. cbn [pos_kept filter andb orb]. destruct (multi p); cbn [negb]; rewrite IH; reflexivity.
+  induction l as [|p t IH]; [reflexivity|]. cbn [pos_kept filter andb orb]. destruct (skipped p); cbn [negb]; rewrite IH; reflexivity.
 Qed.
 
-(** without subcommands: everything up to and including the FIRST multi-valued positional, then the single-valued ones *)
-Theorem pos_kept_first_catch_all : forall l1 p l2,
-  Forall (fun q => multi q = false) l1 -> multi p = true ->
-  pos_kept false false (l1 ++ p :: l2) = l1 ++ p :: filter (fun q => negb (multi q)) l2.
+(** the flag after a prefix: set iff it was set or the prefix contains a catch-all *)
+Theorem pos_kept_app hs : forall l1 ce l2,
+  pos_kept hs ce (l1 ++ l2) = pos_kept hs ce l1 ++ pos_kept hs (ce || existsb (catch_all hs) l1) l2.
 Proof.
-  induction l1 as [|q t IH]; intros p l2 H1 Hp.
-  - cbn [app pos_kept andb negb]. rewrite Hp. cbn [andb orb]. rewrite pos_kept_after_catch_all. reflexivity.
-  - inversion H1 as [|q' t' Hq Ht]; subst. cbn [app pos_kept andb]. rewrite Hq. cbn [andb orb]. rewrite (IH p l2 Ht Hp). reflexivity.
+  induction l1 as [|p t IH]; intros ce l2; [cbn [app pos_kept existsb]; rewrite orb_false_r; reflexivity|].
+  cbn [app pos_kept existsb]. destruct (ce && skipped p) eqn:E.
+  - apply andb_true_iff in E. destruct E as [-> _]. rewrite IH. reflexivity.
+  - cbn [app]. rewrite IH, orb_assoc. reflexivity.
 Qed.
 
-Theorem pos_kept_no_multi hs : forall l ce, Forall (fun q => multi q = false) l -> pos_kept hs ce l = l.
+(** while no catch-all was written every positional has its line *)
+Theorem pos_kept_no_catch_all hs : forall l, existsb (catch_all hs) l = false -> pos_kept hs false l = l.
 Proof.
-  induction l as [|q t IH]; intros ce H; [reflexivity|]. inversion H as [|q' t' Hq Ht]; subst.
-  cbn [pos_kept]. rewrite Hq, andb_false_r. cbn [andb]. rewrite orb_false_r, (IH ce Ht). reflexivity.
+  induction l as [|q t IH]; intros H; [reflexivity|]. cbn [existsb] in H. apply orb_false_iff in H. destruct H as [Hq Ht].
+  cbn [pos_kept andb orb]. rewrite Hq, (IH Ht). reflexivity.
 Qed.
+
+(** without subcommands: everything up to and including the FIRST catch-all, then the single-valued ones that are not [last] *)
+Theorem pos_kept_first_catch_all hs : forall l1 p l2,
+  existsb (catch_all hs) l1 = false -> catch_all hs p = true ->
+  pos_kept hs false (l1 ++ p :: l2) = l1 ++ p :: filter (fun q => negb (skipped q)) l2.
+Proof.
+  intros l1 p l2 H1 Hp. rewrite pos_kept_app, (pos_kept_no_catch_all hs l1 H1), H1. cbn [orb pos_kept andb].
+  rewrite Hp. cbn [orb]. rewrite pos_kept_after_catch_all. reflexivity.
+Qed.
+
+(** the [last] positional (clap's configuration check wants it behind every other positional): it has its line iff no
+    catch-all was written before it -- after a catch-all it is left to [_arguments -S] *)
+Theorem pos_kept_last hs l p :
+  is_last p = true ->
+  pos_kept hs false (l ++ [p]) = pos_kept hs false l ++ (if existsb (catch_all hs) l then [] else [p]).
+Proof.
+  intros Hl. rewrite pos_kept_app. cbn [orb pos_kept]. unfold skipped. rewrite Hl. cbn [orb].
+  destruct (existsb (catch_all hs) l); reflexivity.
+Qed.
+(** its line, when it has one: a multi-valued [last] positional of a command without subcommands is itself the catch-all *)
+Theorem pos_card_last_single hs p : multi p = false -> pos_card hs p = if negb (a_required (fst p)) then lit ":" else [].
+Proof. intros H. unfold pos_card. rewrite H. reflexivity. Qed.
 
 (** the block of a command: its positional segment is the lines of the kept positionals *)
 Theorem write_positionals_exact c d :
@@ -76,24 +121,45 @@ Example pos_kept_example :
   pos_card false (zp_arg (lit "files") 5, ad0) = lit "*:".
 Proof. split; reflexivity. Qed.
 
-(** clap's own configuration check ("Only one positional argument with .num_args(1..) set is allowed per command, unless the
-    second one also has .last(true) set"; replayed: the harness answers INVALID for two of them) leaves at most one
-    multi-valued positional in a tree whose arguments carry no [last]: then NO positional is skipped *)
-From Coq Require Import Lia.
+(** evaluated, with the round-4 fields: [src] (1..3, terminator [;]) then [dst] (1..3) then [rest] ([last]): [src] is written
+    ['*;:...'] ([;] is no key of [escape_value]; a blank is: ['*a\ b:']), [dst] is the catch-all ['*:'], [rest] has no line;
+    after a single-valued positional [rest] has its line *)
+Definition zp_arg_x (id : bytes) (mx : N) (term : option bytes) (last : bool) : arg :=
+  mkArgX id None None [] [] ASet (Some (1, mx)) None None false false false [] term last [] [].
+Example pos_kept_last_example :
+  let l := [(zp_arg_x (lit "src") 3 (Some (lit ";")) false, ad0); (zp_arg_x (lit "dst") 3 None false, ad0);
+            (zp_arg_x (lit "rest") 1 None true, ad0)] in
+  map (fun p => (a_id (fst p), pos_card false p)) (pos_kept false false l)
+  = [(lit "src", lit "*;:"); (lit "dst", lit "*:")] /\
+  map (fun p => a_id (fst p)) (pos_kept false false [(zp_arg_x (lit "one") 1 None false, ad0); (zp_arg_x (lit "rest") 1 None true, ad0)])
+  = [lit "one"; lit "rest"] /\
+  pos_card false (zp_arg_x (lit "src") 3 (Some (lit "a b")) false, ad0) = lit "*a\ b:".
+Proof. vm_compute. repeat split; reflexivity. Qed.
+
+(** when at most one positional is multi-valued or [last] -- clap's own configuration check ("Only one positional argument
+    with .num_args(1..) set is allowed per command, unless the second one also has .last(true) set"; replayed: the harness
+    answers INVALID for two of them without [last]) leaves such a tree whenever no argument carries [last] -- NO positional
+    is skipped *)
 Theorem pos_kept_valid hs : forall l ce,
-  (List.length (filter multi l) <= 1)%nat -> ce = false -> pos_kept hs ce l = l.
+  (List.length (filter skipped l) <= 1)%nat -> ce = false -> pos_kept hs ce l = l.
 Proof.
   induction l as [|p t IH]; intros ce H Hce; [reflexivity|]. subst ce. cbn [pos_kept andb orb]. cbn [filter] in H.
-  destruct (multi p) eqn:Em.
-  - cbn [List.length] in H. f_equal. apply pos_kept_no_multi.
-    assert (Hn : filter multi t = []) by (destruct (filter multi t); [reflexivity|cbn [List.length] in H; lia]).
-    apply Forall_forall. intros q Hq. destruct (multi q) eqn:Eq; [|reflexivity].
-    assert (Hin : In q (filter multi t)) by (apply filter_In; split; assumption). rewrite Hn in Hin. destruct Hin.
-  - cbn [andb]. f_equal. apply IH; [exact H|reflexivity].
+  destruct (skipped p) eqn:Em.
+  - cbn [List.length] in H. f_equal.
+    assert (Hn : filter skipped t = []) by (destruct (filter skipped t); [reflexivity|cbn [List.length] in H; lia]).
+    assert (Hnone : forall q, In q t -> skipped q = false).
+    { intros q Hq. destruct (skipped q) eqn:Eq; [|reflexivity].
+      assert (Hin : In q (filter skipped t)) by (apply filter_In; split; assumption). rewrite Hn in Hin. destruct Hin. }
+    clear - Hnone. generalize (catch_all hs p). induction t as [|q t IH]; intros ce; [reflexivity|].
+    cbn [pos_kept]. rewrite (Hnone q (or_introl eq_refl)), andb_false_r. f_equal.
+    apply IH. intros x Hx. apply Hnone. right. exact Hx.
+  - assert (Hc : catch_all hs p = false).
+    { destruct (catch_all hs p) eqn:E; [|reflexivity]. apply catch_all_skipped in E. congruence. }
+    rewrite Hc. f_equal. apply IH; [exact H|reflexivity].
 Qed.
 
 Theorem write_positionals_valid c d :
-  (List.length (filter multi (filter is_pos (zipd ad0 (c_args c) (cd_args d)))) <= 1)%nat ->
+  (List.length (filter skipped (filter is_pos (zipd ad0 (c_args c) (cd_args d)))) <= 1)%nat ->
   write_positionals_of c d =
   zjoin znl (map (fun p => positional_line (pos_card (has_subcommands c) p) p) (filter is_pos (zipd ad0 (c_args c) (cd_args d)))).
 Proof. intros H. rewrite write_positionals_exact, (pos_kept_valid _ _ false H eq_refl). reflexivity. Qed.
